@@ -380,13 +380,85 @@ MUTATORS = {"pop", "popitem", "clear", "update", "setdefault", "append", "extend
             "remove", "add", "discard", "appendleft", "extendleft", "__setitem__", "__delitem__"}
 
 
+def ephemeral_attrs(P):
+    """Attributes of the interpreter that hold nothing of an earlier step:
+    emptied by the cleanup of run_single_step, assigned afresh before the phase
+    body on every step, or never read by the interpreter at all (a record kept for
+    the caller).  None of them can make a resumed stepper differ from a fresh one."""
+    C = P.cls(INTERP)
+    f = C.methods.get("run_single_step")
+    out = set()
+    if f is None:
+        return out
+
+    def self_attr(n):
+        return n.attr if isinstance(n, ast.Attribute) and isinstance(n.value, ast.Name) \
+            and n.value.id == "self" else None
+
+    empty = lambda v: isinstance(v, ast.Constant) or (
+        isinstance(v, (ast.Dict, ast.List, ast.Set, ast.Tuple)) and not getattr(v, "keys", None)
+        and not getattr(v, "elts", None)) or (
+        isinstance(v, ast.Call) and dotted(v.func) in ("dict", "set", "list") and not v.args and not v.keywords)
+    for t in ast.walk(f.node):
+        if isinstance(t, ast.Try):
+            for b in t.finalbody:
+                if isinstance(b, ast.Expr) and isinstance(b.value, ast.Call) \
+                        and isinstance(b.value.func, ast.Attribute) and b.value.func.attr == "clear" \
+                        and self_attr(b.value.func.value):
+                    out.add(self_attr(b.value.func.value))
+                if isinstance(b, ast.Assign) and empty(b.value):
+                    out |= {self_attr(x) for x in b.targets if self_attr(x)}
+    # assigned on every step before the phase body runs
+    def before_body(stmts):
+        for st in stmts:
+            if any(isinstance(x, ast.Call) and dotted(x.func) == "self.exec_controller"
+                   for x in ast.walk(st)):
+                if isinstance(st, ast.Try):
+                    before_body(st.body)
+                return
+            if isinstance(st, ast.Assign):
+                out.update(self_attr(x) for x in st.targets if self_attr(x)
+                           and not any(self_attr(y) == self_attr(x) for y in ast.walk(st.value)))
+    before_body(func_body_stmts(f.node))
+    out.discard(None)
+    # never read: every mention is a store, a keyed store or a discarded mutation
+    mentions = {}
+    for name_, m_ in C.methods.items():
+        for u in [m_] + list(m_.nested.values()):
+            parents = {}
+            for n_ in ast.walk(u.node):
+                for c_ in ast.iter_child_nodes(n_):
+                    parents[id(c_)] = n_
+            for n_ in ast.walk(u.node):
+                a = self_attr(n_)
+                if a is None:
+                    continue
+                par = parents.get(id(n_))
+                if isinstance(n_.ctx, ast.Store):
+                    w = True
+                elif isinstance(par, ast.Subscript) and par.value is n_ and isinstance(par.ctx, (ast.Store, ast.Del)):
+                    w = True
+                elif isinstance(par, ast.Attribute) and par.attr in MUTATORS and par.attr not in ("pop", "setdefault") \
+                        and isinstance(parents.get(id(par)), ast.Call) \
+                        and isinstance(parents.get(id(parents.get(id(par)))), ast.Expr):
+                    w = True
+                else:
+                    w = False
+                mentions.setdefault(a, []).append(w)
+    out |= {a for a, ws in mentions.items() if all(ws) and a not in ("context", "next_phase")}
+    out -= {"context", "next_phase", "exec_controller", "functions", "code", "eval_mapper"}
+    return out
+
+
 def _confined(run, P):
     """Receivers of stores / mutating calls in the statement handlers: anything
     reachable from self must be self.context (or a value held in it)."""
     from ..engine import dataflow as df
     C = P.cls(INTERP)
+    eph = ephemeral_attrs(P)
     EM = P.cls("dagrt.expression.EvaluationMapper")
-    targets = [(f, ("SELF.context",)) for n, f in sorted(C.methods.items())
+    targets = [(f, ("SELF.context",) + tuple(f"SELF.{a}" for a in sorted(eph)))
+               for n, f in sorted(C.methods.items())
                if n.startswith("exec_") or n == "evaluate_condition"]
     targets += [(f, ()) for n, f in sorted(EM.methods.items()) if n.startswith("map_")]
     if len(targets) < 8:
@@ -434,6 +506,7 @@ def _driver_state(run, P):
     the phase it is in: the drivers change nothing else, and never the store."""
     import textwrap
     C = P.cls(INTERP)
+    eph = ephemeral_attrs(P)
     for name in ("run", "run_single_step"):
         f = C.methods[name]
         stores = []
@@ -455,7 +528,7 @@ def _driver_state(run, P):
         reset = {t_.attr for t in ast.walk(f.node) if isinstance(t, ast.Try) for b in t.finalbody
                  for s_ in ast.walk(b) if isinstance(s_, ast.Assign) and isinstance(s_.value, ast.Constant)
                  for t_ in s_.targets if isinstance(t_, ast.Attribute) and dotted(t_.value) == "self"}
-        attrs = [x for x in attrs if x.attr not in reset]
+        attrs = [x for x in attrs if x.attr not in reset and x.attr not in eph]
         # an attribute that is given a newly made object (a fresh controller per step) holds
         # nothing of earlier steps
         fresh = {t_.attr for s_ in ast.walk(f.node) if isinstance(s_, ast.Assign)
@@ -469,6 +542,24 @@ def _driver_state(run, P):
                       for a_ in ast.walk(f.node))
                   for t_ in s_.targets if isinstance(t_, ast.Attribute) and dotted(t_.value) == "self"}
         attrs = [x for x in attrs if x.attr not in fresh]
+        if stores and not attrs:
+            # a variable changed around the step and put back by a finally clause of the driver
+            # (directly or in a helper it calls): whether what is put back is exact is not read
+            def key_of(x):
+                sl = x.slice if isinstance(x, ast.Subscript) else (x.args[0] if x.args else None)
+                return sl.value if isinstance(sl, ast.Constant) and isinstance(sl.value, str) else None
+            fin_nodes = [y for t in ast.walk(f.node) if isinstance(t, ast.Try) for b in t.finalbody
+                         for y in ast.walk(b)]
+            helpers = [C.methods[dotted(y.func)[5:]] for y in fin_nodes if isinstance(y, ast.Call)
+                       and (dotted(y.func) or "").startswith("self.") and dotted(y.func)[5:] in C.methods]
+            put_back = set()
+            for y in fin_nodes + [z for h in helpers for z in ast.walk(h.node)]:
+                if isinstance(y, ast.Subscript) and dotted(y.value) == "self.context" \
+                        and isinstance(y.ctx, ast.Store) and key_of(y):
+                    put_back.add(key_of(y))
+            if all(key_of(x) and key_of(x) in put_back for x in stores):
+                raise AnalysisError(f"NumpyInterpreter.{name} changes {sorted(put_back)} around the step and "
+                                    "puts it back in a finally clause: exactness of the restoration is not read")
         run.ob("C11.confined", f, (stores + attrs)[0] if stores + attrs else f.node, not stores and not attrs,
                construct=f"NumpyInterpreter.{name} writes no variable (outside the cleanup) and no "
                          f"attribute but next_phase"
@@ -481,6 +572,25 @@ def _driver_state(run, P):
         fg, node, tree = template_of(P, tname)
         attrs = [x for x in ast.walk(tree) if isinstance(x, ast.Attribute) and isinstance(x.value, ast.Name)
                  and x.value.id == "self" and isinstance(x.ctx, ast.Store) and x.attr != "next_phase"]
+        if attrs:
+            # a counter that every exceptional exit puts back to a constant (a handler for
+            # BaseException that re-raises, or a finally clause): exactness is not read
+            reset = set()
+            for t in ast.walk(tree):
+                if not isinstance(t, ast.Try):
+                    continue
+                blocks = [t.finalbody] + [h.body for h in t.handlers
+                                          if (h.type is None or dotted(h.type) == "BaseException")
+                                          and h.body and isinstance(h.body[-1], ast.Raise)
+                                          and h.body[-1].exc is None]
+                for b in blocks:
+                    for s_ in b:
+                        if isinstance(s_, ast.Assign) and isinstance(s_.value, ast.Constant):
+                            reset |= {t_.attr for t_ in s_.targets if isinstance(t_, ast.Attribute)
+                                      and dotted(t_.value) == "self"}
+            if all(x.attr in reset for x in attrs):
+                raise AnalysisError(f"generated {tname[6:]}() keeps {sorted(reset)} across steps and resets it "
+                                    "on every exceptional exit: exactness of the reset is not read")
         run.ob("C11.confined", fg, node, not attrs,
                construct=f"generated {tname[6:]}() assigns no attribute but next_phase"
                          + (f" (found self.{attrs[0].attr})" if attrs else ""),
